@@ -203,7 +203,12 @@ pub fn check_case(c: &CosCase, obs: &mut Obs) -> Result<(), String> {
         lines.push(format!("@@{}${},domain={}{}", pat, if d.len() % 2 == 0 { "generichide" } else { "ghide" }, if *neg { "~" } else { "" }, d));
     }
     let res = scriptlet_resources();
-    let e = build_engine(&lines, false, true, &res);
+    let e0 = build_engine(&lines, false, true, &res);
+    // the same rules after a serialize -> deserialize round trip
+    let mut e_rt = adblock::Engine::new(true);
+    e_rt.deserialize(&e0.serialize_raw().map_err(|x| format!("serialize: {:?}", x))?).map_err(|x| format!("deserialize of own bytes: {:?}", x))?;
+    e_rt.use_resources(res.iter().cloned());
+    for (e, how) in [(&e0, ""), (&e_rt, " [engine loaded from its own serialized bytes]")] {
     for p in &c.pages {
         obs.inner_evals += 1;
         let url = format!("https://{}/index.html", p.host);
@@ -285,20 +290,20 @@ pub fn check_case(c: &CosCase, obs: &mut Obs) -> Result<(), String> {
         }
         let got_hide: BTreeSet<String> = got.hide_selectors.iter().cloned().collect();
         if got_hide != want_hide {
-            return Err(format!("page {}: hide_selectors {:?}, expected {:?}", p.host, got_hide, want_hide));
+            return Err(format!("page {}{}: hide_selectors {:?}, expected {:?}", p.host, how, got_hide, want_hide));
         }
         let got_exc: BTreeSet<String> = got.exceptions.iter().cloned().collect();
         if got_exc != unhide {
-            return Err(format!("page {}: exceptions {:?}, expected {:?}", p.host, got_exc, unhide));
+            return Err(format!("page {}{}: exceptions {:?}, expected {:?}", p.host, how, got_exc, unhide));
         }
         if got.generichide != gh {
-            return Err(format!("page {}: generichide {}, expected {}", p.host, got.generichide, gh));
+            return Err(format!("page {}{}: generichide {}, expected {}", p.host, how, got.generichide, gh));
         }
         let mut got_actions: Vec<String> = vec![];
         for a in &got.procedural_actions {
             match serde_json::from_str::<Value>(a) {
                 Ok(v) => got_actions.push(v.to_string()),
-                Err(_) => return Err(format!("page {}: procedural action is not JSON: {:?}", p.host, a)),
+                Err(_) => return Err(format!("page {}{}: procedural action is not JSON: {:?}", p.host, how, a)),
             }
         }
         got_actions.sort();
@@ -306,7 +311,7 @@ pub fn check_case(c: &CosCase, obs: &mut Obs) -> Result<(), String> {
         want_actions.sort();
         want_actions.dedup();
         if got_actions != want_actions {
-            return Err(format!("page {}: procedural_actions {:?}, expected {:?}", p.host, got_actions, want_actions));
+            return Err(format!("page {}{}: procedural_actions {:?}, expected {:?}", p.host, how, got_actions, want_actions));
         }
         // scriptlets: one try-block per surviving injection (templates with a unique marker)
         let mut want_js: BTreeSet<String> = BTreeSet::new();
@@ -319,7 +324,7 @@ pub fn check_case(c: &CosCase, obs: &mut Obs) -> Result<(), String> {
         }
         let got_js: BTreeSet<String> = got.injected_script.lines().filter(|l| l.starts_with("/*")).map(|l| l.to_string()).collect();
         if got_js != want_js {
-            return Err(format!("page {}: injected scriptlets {:?}, expected {:?}", p.host, got_js, want_js));
+            return Err(format!("page {}{}: injected scriptlets {:?}, expected {:?}", p.host, how, got_js, want_js));
         }
         if (p.host.matches('.').count() >= 2 && via_parent_or_entity) || !unhide.is_empty() || !unactions.is_empty() || !unscripts.is_empty() || blanket {
             obs.nontrivial = true;
@@ -330,6 +335,7 @@ pub fn check_case(c: &CosCase, obs: &mut Obs) -> Result<(), String> {
         if !want_js.is_empty() { obs.label("scriptlet"); }
         if !want_actions.is_empty() { obs.label("action"); }
         if !p.host.is_ascii() { obs.label("idn-page"); }
+    }
     }
     Ok(())
 }
